@@ -20,7 +20,7 @@ struct RankState { std::vector<int> closed_ids; std::vector<int> ncid; std::vect
 struct Ctx {
     Program *p; RunOpts o; RunResult *res; int n;
     std::vector<RankState> rs;
-    std::vector<int> cp_arrived, cp_done, bar_arrived;
+    std::vector<int> cp_arrived, cp_arrived2, cp_done, bar_arrived;
     std::map<int, sim::Image> snaps;
 };
 
@@ -298,6 +298,7 @@ struct Exec {
     }
 
     void check_files(Op &op, int opi);
+    void check_reports(Op &op, int opi);
     void check_hints(const MFile &f, const cdf::File &d, int ncid, int slot, int opi);
 
     void run_op(int opi) {
@@ -349,7 +350,8 @@ struct Exec {
                     if (!d.empty()) fail("abort-restores", opi, path + ": after ncmpi_abort of a redefinition the file differs from its state at ncmpi_redef in " + std::to_string(d.size()) + " byte range(s), first [" + std::to_string(d[0].first) + "," + std::to_string(d[0].second) + "), size " + std::to_string(c.snaps[op.file].size) + " -> " + std::to_string(ino->vis.size));
                 }
                 if (c.o.check_files && op.msnap) check_files(op, opi); c.cp_done[opi] = 1; }
-            else { Ctx *cp = &c; sim::block_until("checkpoint-wait", [cp, opi]() { return cp->cp_done[opi] != 0; }); }
+            else { Ctx *cp = &c; sim::block_until("checkpoint-wait", [cp, opi]() { return cp->cp_done[opi] != 0; }); if (c.o.check_files && op.msnap && op.a[0] == 0) check_reports(op, opi); }
+            if (op.a[0] == 0 && c.n > 1) barrier(c.cp_arrived2, opi, "checkpoint-reports");   // nobody moves on while another rank still compares its reports with the file
             break;
         case OP_CREATE: {
             MPI_Info info = make_info(op); int ncid = -1;
@@ -588,6 +590,24 @@ void Exec::do_wait(Op &op, int opi, bool cancel) {
     }
 }
 
+// every rank's own reports of header size / extent, record size and variable offsets must equal what is in the file (rank 0 does this inside check_files)
+void Exec::check_reports(Op &op, int opi) {
+    const Model &m = *op.msnap;
+    for (size_t k = 0; k < m.files.size(); k++) {
+        const MFile &f = m.files[k]; if (!f.open || f.mode == FM_DEFINE) continue;
+        int ncid = me.ncid[k]; if (ncid < 0) continue;
+        auto ino = sim::g->fs.lookup(f.path); if (!ino) continue;
+        cdf::File d; if (!cdf::decode_header(ino->vis, d)) continue;   // reported by rank 0
+        MPI_Offset hs = -1, he = -1, rs = -1; ncmpi_inq_header_size(ncid, &hs); ncmpi_inq_header_extent(ncid, &he); ncmpi_inq_recsize(ncid, &rs);
+        if (hs != d.header_len) fail("report-header-size", opi, f.path + ": ncmpi_inq_header_size = " + std::to_string((long long)hs) + " on rank " + std::to_string(r) + " but the header in the file is " + std::to_string(d.header_len) + " bytes");
+        long long first = -1; for (auto &dv : d.vars) if (first < 0 || dv.begin < first) first = dv.begin;
+        if (first >= 0 && he != first) fail("report-header-extent", opi, f.path + ": ncmpi_inq_header_extent = " + std::to_string((long long)he) + " on rank " + std::to_string(r) + " but the first variable begins at " + std::to_string(first));
+        bool anyrec = false; for (auto &dv : d.vars) anyrec = anyrec || dv.isrec;
+        if (anyrec && rs != d.recsize) fail("report-recsize", opi, f.path + ": ncmpi_inq_recsize = " + std::to_string((long long)rs) + " on rank " + std::to_string(r) + " but the record size by the format rule is " + std::to_string(d.recsize));
+        for (size_t i = 0; i < d.vars.size(); i++) { MPI_Offset off = -1; ncmpi_inq_varoffset(ncid, (int)i, &off); if (off != d.vars[i].begin) fail("report-varoffset", opi, f.path + ": ncmpi_inq_varoffset('" + d.vars[i].name + "') = " + std::to_string((long long)off) + " on rank " + std::to_string(r) + " but begin in the file is " + std::to_string(d.vars[i].begin)); }
+    }
+}
+
 // ---- raw-image oracles (run by rank 0 while every rank is parked at the checkpoint)
 // effective hints (C10): what ncmpi_inq_file_info reports must be the user's setting (environment form wins over the MPI_Info form) and must be
 // what the layout of a freshly created file shows.  Precedence of the alignment settings as documented at ncmpio__enddef().
@@ -712,7 +732,7 @@ RunResult run_program(Program &p, const RunOpts &o) {
     int n = p.cfg.sim.nprocs; int nslots = (int)m.files.size();
     Ctx c; c.p = &p; c.o = o; c.res = &res; c.n = n; c.rs.resize(n);
     for (auto &r : c.rs) { r.ncid.assign(nslots, -1); r.reqs.resize(nslots); }
-    c.cp_arrived.assign(p.ops.size(), 0); c.cp_done.assign(p.ops.size(), 0); c.bar_arrived.assign(p.ops.size(), 0);
+    c.cp_arrived.assign(p.ops.size(), 0); c.cp_arrived2.assign(p.ops.size(), 0); c.cp_done.assign(p.ops.size(), 0); c.bar_arrived.assign(p.ops.size(), 0);
     res.rcs.assign(n, std::vector<OpResult>(p.ops.size()));
     sim::run(s, [&](int rank) {
         Exec e(c, rank);
